@@ -142,6 +142,12 @@ def corpus():
         mk_case([], ["-:0=c3,1=L4"], ["o"], ["new 0", "new 0", "at 0 0 c6", "set 0 0 5", "q1 0", "get 1 0", "new 0", "get 2 0"]),
         mk_case([], ["-:0=c3,1=L4"], ["o"], ["new 0", "new 0", "at 0 0 c6", "atn 0 5", "q1 0", "q2 0", "get 1 0", "new 0",
                                              "get 2 0"], impl_only=True),
+        # scenario A: a dynamic Range shared handler; the int-bounded instance is used first
+        "#a10x|A|-|new 0;new 1;get 0 level;set 0 level 3;new 2",
+        "#a10x|A|-|new 5;new 0;set 0 pick 5;get 0 pick",
+        # scenario B: a strict class, an undefined <name>_items probed on one instance, containers mutated on others
+        "#a10x|B|0|new;new;has 1 tags;otc 1 index 0;mut 0 tags;new",
+        "#a10x|B|1|new;new;gad 0 alt;trt 0 both;mut 1 alt",
         # the implicit path: the on-demand <name>_items instance trait (real code + oracle only)
         mk_case(["F"], ["-:0=U0", "-:0=U0"], ["o", "o"],
                 ["new 0", "new 0", "new 1", "mut 0 0 9", "mut 1 0 10", "mut 2 0 11", "rdi 0 0 1", "mut 1 0 12", "mut 2 0 13",
@@ -480,6 +486,10 @@ def generate(rng, tier):
         yield query_case(rng)
     for _ in range(max(30, n // 60)):
         yield query_case(rng, impl_only=True)
+    for _ in range(max(60, n // 15)):
+        yield scenario_case(rng, "A")
+    for _ in range(max(60, n // 15)):
+        yield scenario_case(rng, "B")
 
 
 # ---------------------------------------------------------------------------
@@ -993,7 +1003,304 @@ def kind_of(run, ci, name):
     return lab
 
 
+# ---------------------------------------------------------------------------
+# Scenario cases (`#a10x|<scenario>|<param>|ops`, real code + oracle only): state that lives OUTSIDE the attribute
+# model — a trait handler shared by all instances, class-level placeholders for undefined names — checked with
+# the same twin principle: the run without the acting instance's operations must look the same from every
+# other instance (created before or after).
+
+A_CFGS = [{}, {"lo": 0.25, "hi": 0.75}, {"lo": 0.5, "hi": 1.5}, {"lo": 2, "hi": 5}, {"lo": 1.0, "hi": 9.0},
+          {"choices": ["a", "b"]}, {"choices": [0.5, 1.5]}, {"flo": 0.25, "fhi": 0.5, "ilo": 3, "ihi": 4},
+          {"lo": 0.25, "hi": 0.75, "choices": [7, 8]}]
+A_VALUES = [0, 0.5, 3, 7, 1.0, "a", 2, 0.3, 8]
+A_ATTRS = ["level", "flevel", "ilevel", "pick", "lo", "hi"]
+B_ATTRS = ["tags", "index", "alt", "plain", "raw", "both"]
+B_BASES = ["HasStrictTraits", "HasPrivateTraits", "HasTraits"]
+
+
+def scenario_case(rng, scn):
+    """A: defaults / validation that depend on per-instance state read through a handler shared by all instances
+    (Range with trait-named bounds of Any / Float / Int type, Enum(values=name)); instances with bounds of
+    different numeric types; the acting instance is read and assigned first.
+    B: classes (strict, private, plain) holding containers in Union / Either / Instance(list) traits without a
+    declared <name>_items trait; the acting instance probes undefined names (hasattr, on_trait_change / observe
+    with a missing name, trait(name), getattr with default) and mutates; the others mutate their own defaults."""
+    ops = []
+    if scn == "A":
+        ninst = rng.randint(2, 4)
+        cfgs = [rng.randrange(len(A_CFGS)) for _ in range(ninst)]
+        if rng.random() < 0.6:
+            cfgs[0] = rng.choice([0, 3])                 # an int-bounded instance …
+            cfgs[1] = rng.choice([1, 2, 4, 8])           # … and a fractional one
+        early = rng.randint(2, ninst)
+        for c in cfgs[:early]:
+            ops.append("new %d" % c)
+        actor = rng.randrange(early)
+        for _ in range(rng.randint(1, 6)):
+            r = rng.random()
+            if r < 0.45:
+                ops.append("get %d %s" % (actor, rng.choice(A_ATTRS[:4])))
+            elif r < 0.85:
+                ops.append("set %d %s %d" % (actor, rng.choice(A_ATTRS[:4]), rng.randrange(len(A_VALUES))))
+            elif r < 0.93:
+                ops.append("set %d %s %d" % (actor, rng.choice(["lo", "hi"]), rng.randrange(len(A_VALUES))))
+            else:
+                others = [i for i in range(early) if i != actor]
+                ops.append("get %d %s" % (rng.choice(others), rng.choice(A_ATTRS[:4])))
+        for c in cfgs[early:]:
+            ops.append("new %d" % c)
+        return "#a10x|A|-|" + ";".join(ops)
+    base = rng.randrange(len(B_BASES)) if rng.random() < 0.5 else 0
+    ninst = rng.randint(2, 3)
+    for _ in range(ninst):
+        ops.append("new")
+    actor = rng.randrange(ninst)
+    for _ in range(rng.randint(1, 5)):
+        r = rng.random()
+        nm = rng.choice(B_ATTRS)
+        if r < 0.25:
+            ops.append("has %d %s" % (actor, nm))
+        elif r < 0.45:
+            ops.append("otc %d %s %d" % (actor, nm, rng.randrange(2)))
+        elif r < 0.55:
+            ops.append("obs %d %s %d" % (actor, nm, rng.randrange(2)))
+        elif r < 0.65:
+            ops.append("trt %d %s" % (actor, nm))
+        elif r < 0.75:
+            ops.append("gad %d %s" % (actor, nm))
+        elif r < 0.9:
+            ops.append("mut %d %s" % (actor, nm))
+        else:
+            others = [i for i in range(ninst) if i != actor]
+            ops.append("mut %d %s" % (rng.choice(others), nm))
+    if rng.random() < 0.5:
+        ops.append("new")
+    return "#a10x|B|%d|" % base + ";".join(ops)
+
+
+class Scenario:
+    def __init__(self, scn, param, ops):
+        self.scn, self.param, self.ops = scn, param, ops
+        self.objs = []
+        self.calls = []          # (object, handler id)
+        self.outcomes = []
+        self.low_at_read = {}    # position in outcomes -> the instance's low bound when `level` was read
+        self.fns = {}
+
+    def handler(self, h):
+        if h not in self.fns:
+            def fn(obj, name, old, new):
+                self.calls.append((obj, h))
+            self.fns[h] = fn
+        return self.fns[h]
+
+    def ohandler(self, h):
+        if ("o", h) not in self.fns:
+            def fn(event):
+                self.calls.append((event.object, 10 + h))
+            self.fns[("o", h)] = fn
+        return self.fns[("o", h)]
+
+    def build(self):
+        import traits.api as T
+        if self.scn == "A":
+            class Gauge(T.HasTraits):
+                lo = T.Any(0)
+                hi = T.Any(10)
+                level = T.Range(low="lo", high="hi")
+                flo = T.Float(0.0)
+                fhi = T.Float(1.0)
+                flevel = T.Range(low="flo", high="fhi")
+                ilo = T.Int(0)
+                ihi = T.Int(10)
+                ilevel = T.Range(low="ilo", high="ihi")
+                choices = T.List([1, 2, 3])
+                pick = T.Enum(values="choices")
+            self.cls = Gauge
+        else:
+            base = getattr(T, B_BASES[int(self.param)])
+
+            class Store(base):
+                tags = T.Union(T.List(T.Str), None)
+                index = T.Union(T.Dict(T.Str, T.Int), None)
+                alt = T.Either(T.List(T.Int), None)
+                plain = T.List(T.Int)
+                raw = T.Instance(list, ())
+                both = T.Union(T.Set(T.Int), T.List(T.Int))
+            self.cls = Store
+
+    def new(self, arg=None):
+        if self.scn == "A":
+            return self.cls(**A_CFGS[int(arg)])
+        return self.cls()
+
+    def mutate(self, o, nm):
+        c = getattr(o, nm)
+        if isinstance(c, dict):
+            c["k%d" % len(c)] = len(c)
+        elif isinstance(c, set):
+            c.add(len(c))
+        elif nm == "tags":
+            c.append("x")
+        else:
+            c.append(len(c))
+
+    def apply(self, op):
+        k = op[0]
+        if k == "new":
+            self.objs.append(self.new(op[1] if len(op) > 1 else None))
+            return "ok"
+        o = self.objs[int(op[1])]
+        try:
+            if k == "get":
+                if op[2] == "level":
+                    self.low_at_read[len(self.outcomes)] = (o.lo, o.hi)
+                return "ok:%r" % (getattr(o, op[2]),)
+            if k == "set":
+                setattr(o, op[2], A_VALUES[int(op[3])])
+            elif k == "has":
+                return "ok:%r" % hasattr(o, op[2] + "_items")
+            elif k == "otc":
+                o.on_trait_change(self.handler(int(op[3])), op[2] + "_items")
+            elif k == "obs":
+                o.observe(self.ohandler(int(op[3])), op[2] + "_items")
+            elif k == "trt":
+                o.trait(op[2] + "_items")
+            elif k == "gad":
+                getattr(o, op[2] + "_items", None)
+            elif k == "mut":
+                self.mutate(o, op[2])
+            else:
+                raise AssertionError(op)
+        except Exception as e:
+            return "raised " + exc_name(e)
+        return "ok"
+
+    def run(self, skip=None, exclude=None):
+        with A.ExcHandlers(False, False), warnings.catch_warnings():
+            warnings.simplefilter("ignore")
+            self.build()
+            for op in self.ops:
+                if skip is not None and op[0] != "new" and int(op[1]) == skip:
+                    continue
+                self.outcomes.append((tuple(op), self.apply(op)))
+            return self.observe(exclude if exclude is not None else skip)
+
+    def observe(self, actor):
+        """What every instance but the acting one shows, plus instances created now."""
+        out = {}
+        late = []
+        if self.scn == "A":
+            for c in range(len(A_CFGS)):
+                late.append(("late%d" % c, self.new(c)))
+        else:
+            late.append(("late", self.new()))
+        who = [(str(i), o) for i, o in enumerate(self.objs) if i != actor] + late
+        idx = {id(o): name for name, o in who}
+        for name, o in who:
+            if self.scn == "A":
+                for at in A_ATTRS[:4]:
+                    try:
+                        v = getattr(o, at)
+                        out[(name, at, "value")] = "%s:%r" % (type(v).__name__, v)
+                    except Exception as e:
+                        out[(name, at, "value")] = "raises " + exc_name(e)
+                    acc = []
+                    for val in A_VALUES:
+                        try:
+                            setattr(o, at, val)
+                            v = getattr(o, at)
+                            acc.append("%s:%r" % (type(v).__name__, v))
+                        except Exception as e:
+                            acc.append(exc_name(e))
+                    out[(name, at, "accepts")] = acc
+            else:
+                for at in B_ATTRS:
+                    try:
+                        self.mutate(o, at)
+                        out[(name, at, "mutation")] = "ok"
+                    except Exception as e:
+                        out[(name, at, "mutation")] = "raised " + exc_name(e)
+                    try:
+                        out[(name, at, "value")] = repr(getattr(o, at))
+                    except Exception as e:
+                        out[(name, at, "value")] = "raises " + exc_name(e)
+        for ob, h in self.calls:
+            if id(ob) in idx:
+                out.setdefault((idx[id(ob)], "*", "handler-calls"), []).append(h)
+        return out
+
+
+def run_scenario(case):
+    f = case.lstrip("#").split("|")
+    scn, param = f[1], f[2]
+    ops = [o.split() for o in f[3].split(";") if o.strip()]
+    tags = {"scenario:" + scn + (":" + B_BASES[int(param)] if scn == "B" else "")}
+    for o in ops:
+        tags.add("scn-op:" + o[0])
+    hits = []
+    real = Scenario(scn, param, ops)
+    actors = {int(o[1]) for o in ops if o[0] not in ("new", "get")}
+    others_mut = {int(o[1]) for o in ops if o[0] == "mut"}
+    first_actor = next((int(o[1]) for o in ops if o[0] != "new"), None)
+    actor = first_actor if scn == "A" else (min(actors - others_mut) if actors - others_mut else first_actor)
+    if scn == "B":
+        # the acting instance is the one that probes / registers
+        probes = [int(o[1]) for o in ops if o[0] in ("has", "otc", "obs", "trt", "gad")]
+        actor = probes[0] if probes else first_actor
+    robs = real.run(skip=None, exclude=actor)
+    # direct clause: a handler registered on one instance hears about that instance only
+    reg = {}
+    for o in ops:
+        if o[0] in ("otc", "obs"):
+            reg.setdefault((10 if o[0] == "obs" else 0) + int(o[3]), set()).add(int(o[1]))
+    pos = {id(o): i for i, o in enumerate(real.objs)}
+    for ob, h in real.calls:
+        j = pos.get(id(ob))
+        if j is None or j not in reg.get(h, ()):
+            hits.append(_hit("handler-heard-other-instance:scenario-" + scn,
+                             "handler %d, registered on instance(s) %s only, was called for %s" % (
+                                 h, sorted(reg.get(h, ())), "instance %s" % j if j is not None else "a later instance")))
+            break
+    if scn == "A":
+        # direct clause: the first read of a never-assigned dynamic Range returns the instance's OWN low bound
+        seen = set()
+        for pos_, (op, res) in enumerate(real.outcomes):
+            if op[0] == "set" and op[2] == "level":
+                seen.add(int(op[1]))
+            if op[0] == "get" and op[2] == "level" and int(op[1]) not in seen:
+                seen.add(int(op[1]))
+                low, high = real.low_at_read.get(pos_, (None, None))
+                try:
+                    sane = low <= high
+                except Exception:
+                    sane = False
+                if sane and res.startswith("ok") and res != "ok:%r" % (low,):
+                    hits.append(_hit("first-read-not-declared-default:dynamic-Range",
+                                     "first read of level returned %s, the instance's own low bound is %r" % (res[3:], low)))
+    if actor is not None:
+        twin = Scenario(scn, param, ops)
+        tobs = twin.run(skip=actor)
+        real2 = {k: v for k, v in robs.items() if k[0] != str(actor)}
+        for key in sorted(set(real2) | set(tobs), key=str):
+            if real2.get(key) != tobs.get(key):
+                name, at, what = key
+                hits.append(_hit("interference:scenario-%s:%s:%s" % (scn, what, at if scn == "B" or what != "accepts" else at),
+                                 "operations on instance %d changed the %s of %s on %s: %s instead of %s" % (
+                                     actor, what, at, "instance " + name if name.isdigit() else "an instance created "
+                                     "afterwards (" + name + ")", str(real2.get(key))[:120], str(tobs.get(key))[:120])))
+    seen = set()
+    out = []
+    for h in hits:
+        if h["signature"] not in seen:
+            seen.add(h["signature"])
+            out.append(h)
+    return "scenario " + " ; ".join("%s" % r for _, r in real.outcomes), out, tags
+
+
 def run_impl(case):
+    if case.lstrip("#").startswith("a10x|"):
+        return run_scenario(case)
     real = Run(case)
     outs = real.execute()
     tags = set()
